@@ -75,7 +75,8 @@ def plant(rng, root):
             kind = "unknown-property"
         else:
             o = rng.choice(cands)
-    elif kind in ("unknown-attached-type", "unknown-attached-property") and cands and rng.random() < 0.7:
+    elif kind in ("unknown-attached-type", "unknown-attached-property", "duplicate", "map-on-scalar", "ill-typed", "unknown-property", "unknown-signal", "handler-body") \
+            and cands and rng.random() < (0.7 if kind in ("unknown-attached-type", "unknown-attached-property", "duplicate", "map-on-scalar") else 0.4):
         o = rng.choice(cands)          # next to valid attached bindings, whose effect reaches the siblings
     if kind == "ill-typed-pseudo":
         # flow / columns / rows of a grid layout are read one by one (LayoutFlow::parse): an ill-typed one leaves the others in effect
